@@ -3,9 +3,12 @@ RULE = ("scripts of environment outcomes (write ok/err, read frame/err, connect 
         "without a context deadline; final frames: reply, empty reply, remote error with/without payload, request-type frame, garbage, empty "
         "envelope, response with a foreign call id, undecodable reply) replayed through a fake Conn/connectFn on UniClientConn.Invoke; dial "
         "scripts through retryConnectWithBackoff with time.After intercepted; result, trace of connection operations and waits compared with "
-        "Uni.run_invoke / Uni.run_retry; distinct = distinct script text")
+        "Uni.run_invoke / Uni.run_retry; remote error texts, tokens and method names contain '%' sequences; under a context with a deadline every "
+        "read/write must be on a connection that was given a deadline no later than the context's, also after an in-call reconnect, and against "
+        "connections which honour deadlines like sockets (silent peer after a reconnect) the call must be back within 1 s of its deadline; "
+        "distinct = distinct script text")
 ASSUMPTIONS = ["socket deadlines are those of the fake Conn; time.After in uni_client.go is redirected by a source rewrite in the overlay (count checked)"]
-FILES = ["root/fake_test.go", "root/c16_test.go", "root/c07_test.go", "root/c20_test.go"]
+FILES = ["root/fake_test.go", "root/c16_test.go", "root/c07_test.go", "root/c20_test.go", "root/ga_uni_test.go"]
 
 
 def run(ctx):
